@@ -71,8 +71,8 @@ def _gen_filters(rng, dump):
 def _fix_samples(dump):
     """Sampler thread-info records repeat the pid the thread map gives their thread (see ASSUMPTIONS)."""
     tm = {t[0]: t[1] for t in dump['writer'].get('tmap', [])}
-    if dump.get('born'):
-        tm[dump['born'][0]] = dump['born'][1]
+    # (the thread announced in-stream gets its process from that announcement only: the scheduler may run the thread before
+    #  the announcement arrives, and a sampler record declaring it earlier would again be removed by a class filter)
 
     def walk(ops, tid):
         for op in ops:
@@ -96,6 +96,8 @@ def _fix_samples(dump):
             for key in ('in', 'ops'):
                 if key in op:
                     op[key] = strip(op[key])
+            if 'between' in op:
+                op['between'] = {k_: strip(v_) for k_, v_ in op['between'].items()}
             out.append(op)
         return out
     for th in dump['threads']:
@@ -203,9 +205,10 @@ def valid(scn):
                 ops0 = d['threads'][0]['ops'] if d['threads'] else []
                 if not ops0 or ops0[0].get('k') != 'seq' or len(ops0[0]['ops']) != 2 or ops0[0]['ops'][0].get('a', [None])[0] != d['born'][0]:
                     return False
+                if ops0[0]['ops'][0].get('name') != 'TRACE_DATA_NEWTHREAD' or ops0[0]['ops'][1].get('name') != 'TRACE_STRING_NEWTHREAD':
+                    return False
                 if not any(th['tid'] == d['born'][0] for th in d['threads']):
                     return False
-                tm[d['born'][0]] = d['born'][1]
             bad = []
 
             def walk(ops, tid):
@@ -218,6 +221,8 @@ def valid(scn):
                     for key in ('in', 'ops'):
                         if key in op:
                             walk(op[key], tid)
+                    for v_ in (op.get('between') or {}).values():
+                        walk(v_, tid)
             for th in d['threads']:
                 walk(th['ops'], th['tid'])
             if bad:
@@ -258,10 +263,27 @@ def execute(scn):
         stats[k] = stats.get(k, 0) + v
     files = []
     tables = []
+    filter_sensitive = []
     for d in scn['dumps']:
         data, _stream, table = worlds.dump_bytes(d)
         files.append(data)
         tables.append(table)
+        # premise guard, evaluated on the stream itself (whatever the generator did): does a record that a class filter removes
+        # (a sampler thread-info record) or that re-maps its own thread (terminate-pid) change which process a thread belongs to?
+        tp_, _pn = worlds.tmap_model(d['writer'].get('tmap', []))
+        sens = False
+        for r in _stream:
+            nm = table.get(r['id'])
+            if r['q'] in (0, 3):
+                if nm == 'TRACE_DATA_NEWTHREAD':
+                    tp_[r['a'][0]] = r['a'][1]
+                elif nm == 'TRACE_DATA_THREAD_TERMINATE_PID':
+                    sens = sens or tp_.get(r['t']) != r['a'][0]
+                    tp_[r['t']] = r['a'][0]
+                elif nm == 'PERF_THD_Data':
+                    sens = sens or tp_.get(r['a'][1]) != r['a'][0]
+                    tp_[r['a'][1]] = r['a'][0]
+        filter_sensitive.append(sens)
     refs = {}
 
     def ref_traces(di):
@@ -320,6 +342,12 @@ def execute(scn):
             ref, rexc = ref_traces(di)
             if rexc is not None:
                 hist.append([what, 'ref-raised', type(rexc).__name__])
+                continue
+            if cur.get('proc') is not None and (cls or sub or cur.get('tid') is not None) and filter_sensitive[di]:
+                # in this dump a class/thread filter changes which process a thread belongs to; whether the process filter should
+                # then follow the filtered or the unfiltered attribution the statement leaves open: not judged
+                bump('premise_skipped')
+                hist.append([what, 'premise-skipped'])
                 continue
             if what == 'traces':
                 items, exc = common.drain(lambda: p.traces(SimReader(files[di]), tables[di]))
